@@ -1277,6 +1277,10 @@ class RTCPeerConnection(AsyncIOEventEmitter):
         return receiveParameters
 
     def __setSignalingState(self, state: str) -> None:
+        # a negotiation call may still be in progress when close() is called,
+        # "closed" is final
+        if self.__signalingState == "closed":
+            return
         self.__signalingState = state
         self.emit("signalingstatechange")
 
